@@ -10,3 +10,4 @@ pub mod r5;
 pub mod r10;
 pub mod r6;
 pub mod r7;
+pub mod r8f;
